@@ -20,16 +20,16 @@ ASSUME \A b \in Byte : LvmAgree(b)
 \* quick / thorough constants (cfg files cannot hold expressions)
 Pre2Exh == {0, 128, 255}
 SweepBasesExh == {"zero"}
-SweepBasesDeep == {"zero", "ones"}
+SweepBasesDeep == {"zero"}
 Pre2Deep == 0 .. 255
 UidExh == {32, 33}
-UidDeep == {32, 36, 64, 33, 34, 35}
+UidDeep == {32, 36, 64, 33, 35}
 CkLensExh == {8, 24, 6}
-CkLensDeep == {8, 24, 100, 6, 9}
+CkLensDeep == {8, 24, 6}
 PhLensExh == {8, 6}
-PhLensDeep == {8, 24, 100, 6}
+PhLensDeep == {8, 24, 6}
 PtExh == {<< >>, <<24>>, <<100, 100>>, <<8, 8, 8>>}
-PtDeep == {<< >>, <<24>>, <<24, 24, 24>>, <<100, 100>>, <<124, 124, 124>>, <<8, 8, 8>>, <<20, 20>>}
+PtDeep == {<< >>, <<24>>, <<100, 100>>, <<124, 124, 124>>, <<8, 8, 8>>}
 SckLensExh == {0, 1, 16, 32}
 SckLensDeep == {0, 1, 2, 16, 31, 32, 33, 64}
 SckNsExh == {0, 15, 255, 256, 65535}
